@@ -91,20 +91,39 @@ theorem C18_mux_own_response (c : Cfg) (s : State) (hr : Reachable c s) :
     ∀ k v, (k, v) ∈ s.results → ∃ r, s.reqs[k]? = some r ∧ v = c.handler r.data :=
   fun k v h => ((all_reachable c hr).res_ok k v h).1
 
+/-- The payload reaches the routed handler intact: every handler invocation the server has started
+    (a task in a connection's queue) was given exactly the payload of the request that is registered
+    at the client under the record's id. -/
+theorem C18_mux_handler_payload (c : Cfg) (s : State) (hr : Reachable c s) (ci : Nat) (cn : Conn) (t : Task)
+    (hc : s.conns[ci]? = some cn) (ht : t ∈ cn.srvq) :
+    ∃ k q, lookup s.active t.rid = some k ∧ s.reqs[k]? = some q ∧ t.data = q.data := by
+  have hi := all_reachable c hr
+  obtain ⟨h1, ⟨q, hq, hd⟩, _⟩ := hi.srv_ok ci cn hc t ht
+  exact ⟨t.gk, q, lookup_of_mem hi.act_keys h1, hq, hd.symm⟩
+
 /-- No future is set twice: a response goes to exactly one request. -/
 theorem C18_mux_at_most_once (c : Cfg) (s : State) (hr : Reachable c s) :
     (s.results.map Prod.fst).Nodup := (all_reachable c hr).res_nd
 
 /-- The id-minting rule (a new Future's `id()` differs from the ids of the futures still unresolved)
     makes the request ids in use distinct: the keys of `active` are distinct, each key is the id of
-    the future stored under it, and two unresolved requests never share an id. -/
+    the future stored under it, and two requests that both have no result yet never share an id
+    (ids may be, and in the non-vacuity example are, reused once their owner has been resolved). -/
 theorem C18_mux_ids_distinct (c : Cfg) (s : State) (hr : Reachable c s) :
     (s.active.map Prod.fst).Nodup ∧
     (∀ rid k, (rid, k) ∈ s.active → ∃ r, s.reqs[k]? = some r ∧ r.id = rid) ∧
     (∀ k1 k2 r1 r2, s.reqs[k1]? = some r1 → s.reqs[k2]? = some r2 →
-      s.stage k1 ≠ .resolved → s.stage k2 ≠ .resolved → r1.id = r2.id → k1 = k2) :=
-  ⟨(all_reachable c hr).act_keys, fun rid k h => ((all_reachable c hr).act_ok rid k h).1,
-   (all_reachable c hr).ids_inj⟩
+      (∀ v, (k1, v) ∉ s.results) → (∀ v, (k2, v) ∉ s.results) → r1.id = r2.id → k1 = k2) := by
+  have h2 := all_reachable2 c hr
+  refine ⟨h2.inv.act_keys, fun rid k h => (h2.inv.act_ok rid k h).1, ?_⟩
+  intro k1 k2 r1 r2 hk1 hk2 hu1 hu2 hid
+  have unresolved : ∀ k r, s.reqs[k]? = some r → (∀ v, (k, v) ∉ s.results) → s.stage k ≠ .resolved := by
+    intro k r hk hu hst
+    have hloc := h2.loc k r hk
+    rw [hst] at hloc
+    obtain ⟨v, hv⟩ := hloc
+    exact hu v hv
+  exact h2.inv.ids_inj k1 k2 r1 r2 hk1 hk2 (unresolved k1 r1 hk1 hu1) (unresolved k2 r2 hk2 hu2) hid
 
 /-- A response that arrives at the client always finds its request registered (`active.pop` never
     raises `KeyError`, the receiving task never dies on an unmatched id), and the record carries the
